@@ -302,6 +302,12 @@ pub mod fs {
             r is Ok ==> (w.fs.files.contains_key(resolve(w.fs, p.pathv())) || w.fs.dirs.contains(resolve(w.fs, p.pathv()))),
             w.healthy && (w.fs.files.contains_key(resolve(w.fs, p.pathv())) || w.fs.dirs.contains(resolve(w.fs, p.pathv()))) ==> r is Ok,
     { unimplemented!() }
+    /// lstat(2) (does not follow a final symbolic link)
+    #[verifier::external_body]
+    pub fn symlink_metadata<A: PathArg>(p: A, Tracked(w): Tracked<&World>) -> (r: io::Result<Metadata>)
+        ensures
+            r is Ok ==> (w.fs.links.contains_key(p.pathv()) || w.fs.files.contains_key(resolve(w.fs, p.pathv())) || w.fs.dirs.contains(resolve(w.fs, p.pathv()))),
+    { unimplemented!() }
     #[verifier::external_body]
     pub fn read<A: PathArg>(p: A, Tracked(w): Tracked<&World>) -> (r: io::Result<Vec<u8>>)
         ensures
